@@ -5,7 +5,8 @@ from props import forest_common as fc
 THEOREMS = ['C20_tft_unshaped_exact', 'C20_tft_unshaped_perm', 'C20_tft_resolve_in', 'C20_is_ambiguous_single', 'C20_is_ambiguous_iff',
             'C20_visit_terminates', 'C20_visit_total', 'C20_on_cycle_exact', 'C20_cycle_events_sound',
             'C20_loop_eq_rec', 'C20_example_tft', 'C20_example_cycle', 'C20_graph_resolve_in_den',
-            'C20_graph_resolve_total', 'C20_example_graph_resolve']
+            'C20_graph_resolve_total', 'C20_example_graph_resolve', 'C20_forest_exact_model',
+            'C20_forest_complete_model', 'C20_resolve_model_exact']
 GEN_DEPS = ['ForestSortKey']
 RULE = ('(c) random grammars for the dynamic lexers with one to three %ignore literals of different lengths that are prefixes/'
         'suffixes of the grammar\'s own string terminals, all texts up to length 4, character-level tiling oracle; '
@@ -21,8 +22,9 @@ TRUSTED_BASE = ['export of the SPPF and instrumentation of the visitor classes b
                 'lists returned by visit_*_in are recorded and replayed as the model parameter sel)',
                 'TreeForestTransformer is modelled on acyclic forests only; on cyclic forests its walk is covered by the '
                 'generic visitor model (termination, trace) and its output by a Python validity check of every tree',
-                'completeness of the forest built by the Earley engines is NOT proved (C20_forest_complete_full_statement): '
-                'it is compared with brute-force derivation enumeration on every case']
+                'forest exactness is proved for the executable Earley model (C20_forest_exact_model, basic lexer / unit '
+                'tokens); that the model is lark (and the dynamic lexers) is compared per case: model derivations of '
+                'the exported forest = brute-force derivations']
 ALLOWED_AXIOMS = []
 ASSUMPTIONS = ['with regexp terminals under the dynamic lexers, completeness of the forest is only required for the token spans the '
                'scanner considers (known finding F7); soundness is required against re.fullmatch on every span',
@@ -503,9 +505,9 @@ def correspond(ctx):
         idx = sorted(rng.sample(range(len(cases)), cap))
         return [cases[i] for i in idx], [meta[i] for i in idx]
     if not ctx.widen:
-        tcases, tmeta = subset(tcases, tmeta, ctx.scale(140, 1500))
+        tcases, tmeta = subset(tcases, tmeta, ctx.scale(110, 1500))
         icases, imeta = subset(icases, imeta, ctx.scale(70, 700))
-        vcases, vmeta = subset(vcases, vmeta, ctx.scale(380, 3000))
+        vcases, vmeta = subset(vcases, vmeta, ctx.scale(250, 3000))
     bad, errs = ctx.coq_bad_indices('c20t', IMPORTS, 'tft_ok', tcases, chunk=40)
     for e in errs:
         ctx.violation('correspondence:coq-evaluation', {'no_longer_checks': 'c20 tft cases', 'detail': e}, False, e)
@@ -531,9 +533,9 @@ def correspond(ctx):
             ctx.violation('correspondence:' + what, dict(w, no_longer_checks='model vs lark (ignore stream): ' + what), False,
                           'model and lark disagree on %s (diag %s); the Python oracle accepts this case' % (what, code))
     if not ctx.widen:
-        gcases, gmeta = subset(gcases, gmeta, ctx.scale(150, 1500))
+        gcases, gmeta = subset(gcases, gmeta, ctx.scale(80, 1500))
     if not ctx.widen:
-        scases, smeta = subset(scases, smeta, ctx.scale(120, 1200))
+        scases, smeta = subset(scases, smeta, ctx.scale(60, 1200))
     bad, errs = ctx.coq_bad_indices('c20s', IMPORTS_G, 'gsum_ok', scases, chunk=40)
     for e in errs:
         ctx.violation('correspondence:coq-evaluation', {'no_longer_checks': 'c20 sum-walk cases', 'detail': e}, False, e)
